@@ -32,6 +32,23 @@ pub fn control_hash_loop(s: &HashSet<String>) -> Vec<(usize, String)> {
     out
 }
 
+/// control for C06.1: a "seen" set filled by a hash-ordered loop decides what later iterations do
+pub fn control_hash_seen_set(m: &HashMap<u32, String>) -> HashSet<String> {
+    let mut seen: HashSet<usize> = HashSet::new();
+    let mut out = HashSet::new();
+    for (_k, v) in m {
+        if seen.insert(v.len()) {
+            out.insert(v.clone());
+        }
+    }
+    out
+}
+
+/// control for C06.1: a list that is only meaningful as a set is post-processed position by position
+pub fn control_set_compared_list(entries: &mut Vec<(syn::Path, HashSet<syn::Path>)>) {
+    entries.dedup_by(|a, b| a.0 == b.0);
+}
+
 /// control for C17.1: ids compared for order, used in arithmetic, turned into identifiers and tokens
 pub fn control_id_opacity(a: &Entry, b: &Entry) -> proc_macro2::TokenStream {
     let bigger = a.id > b.id;
